@@ -21,7 +21,7 @@ import sys
 
 import numpy as np
 
-PROPS = ('C03', 'C04', 'C05', 'C06', 'C09', 'C16', 'C18', 'C20')
+PROPS = ('C03', 'C04', 'C05', 'C06', 'C09', 'C10', 'C16', 'C17', 'C18', 'C20')
 
 
 # ------------------------------------------------------------------------------------------------ monitors (plugin side)
@@ -238,6 +238,68 @@ def _install(prop):
         for cls, cx in ((v.RealQuantizer, False), (v.ComplexQuantizer, True)):
             attach.wrap(cls, 'quantize', post=(lambda args, kwargs, result, exc, token, _c=cx:
                                                q_check(args[0], result, _c) if exc is None and not S.busy else None))
+
+    if prop == 'C10':
+        v = stg.voltage
+        DS = v.DataStream
+
+        def ds_pre(args, kwargs):
+            if S.busy:
+                return None
+            st = args[0]
+            return (float(st.t_start), float(st.sample_rate))
+
+        @_guarded
+        def ds_check(st, n, out, token):
+            t0, fs_ = token
+            S.R.count('stream_requests_observed')
+            S.R.check(np.ndim(out) == 1 and len(out) == int(n), 'suite:stream-request-length', test=S.test, got=int(np.shape(out)[0]), want=int(n))
+            t1 = float(st.t_start)
+            tol = 4 * np.spacing(max(abs(t0), abs(t1), int(n) / fs_))
+            S.R.check(abs(t1 - (t0 + int(n) / fs_)) <= tol, 'suite:stream-clock-advance', test=S.test, got=t1 - t0, want=int(n) / fs_)
+        attach.wrap(DS, 'get_samples', pre=ds_pre,
+                    post=(lambda args, kwargs, result, exc, token:
+                          ds_check(args[0], kwargs.get('num_samples', args[1] if len(args) > 1 else 0), result, token)
+                          if exc is None and token is not None and not S.busy else None))
+
+        @_guarded
+        def ant_check(ant, n, out):
+            S.R.count('antenna_requests_observed')
+            o = np.asarray(out.get() if hasattr(out, 'get') else out)
+            S.R.check(o.shape == (1, int(ant.num_pols), int(n)), 'suite:antenna-request-shape', test=S.test, shape=list(o.shape))
+            for st in ant.streams:
+                S.R.check(float(st.t_start) == float(ant.t_start), 'suite:antenna-clock-differs-from-stream', test=S.test,
+                          antenna=float(ant.t_start), stream=float(st.t_start))
+        attach.wrap(v.Antenna, 'get_samples',
+                    post=(lambda args, kwargs, result, exc, token:
+                          ant_check(args[0], kwargs.get('num_samples', args[1] if len(args) > 1 else 0), result)
+                          if exc is None and not S.busy else None))
+
+    if prop == 'C17':
+        def sl_pre(args, kwargs):
+            if S.busy:
+                return None
+            fr = args[0]
+            return (np.array(fr.data, copy=True), np.array(fr.fs, copy=True), np.array(fr.ts, copy=True), float(fr.t_start), fr.source_name)
+
+        @_guarded
+        def sl_check(fr, l, r, child, token):
+            data, fs_, ts_, t0, name = token
+            S.R.count('slices_observed')
+            l, r = int(l), int(r)
+            S.R.check(np.array_equal(child.data, data[:, l:r]), 'suite:slice-data', test=S.test)
+            want = fs_[l:r]
+            ok = np.shape(child.fs) == want.shape and (want.size == 0 or float(np.max(np.abs(child.fs - want))) <= 8 * np.spacing(float(np.max(np.abs(fs_)))))
+            S.R.check(bool(ok), 'suite:slice-frequency-axis', test=S.test, l=l, r=r)
+            S.R.check(np.array_equal(child.ts, ts_) and float(child.t_start) == t0, 'suite:slice-time-axis-or-start', test=S.test)
+            S.R.check(bool(child.ascending) == bool(fr.ascending) and child.df == fr.df and child.dt == fr.dt, 'suite:slice-resolution-or-orientation',
+                      test=S.test)
+            S.R.check(np.array_equal(fr.data, data) and np.array_equal(fr.fs, fs_), 'suite:slice-changed-parent', test=S.test)
+            S.R.check(not np.shares_memory(child.data, fr.data), 'suite:slice-is-view-of-parent', test=S.test)
+        attach.wrap(Frame, 'get_slice', pre=sl_pre,
+                    post=(lambda args, kwargs, result, exc, token:
+                          sl_check(args[0], kwargs.get('l', args[1] if len(args) > 1 else 0), kwargs.get('r', args[2] if len(args) > 2 else 0),
+                                   result, token) if exc is None and token is not None and not S.busy else None))
 
     if prop == 'C18':
         @_guarded
